@@ -126,7 +126,7 @@ func (ex *Exec) instr(b *ssa.BasicBlock, in ssa.Instruction) {
 		ex.addObl("bounds", "", r, app("bvsge", extend(n, 64), bvLit(64, 0)), in.Pos(), "makeslice: len out of range", true)
 		var arrs []Term
 		for _, s := range c.leafSorts(st.Elem()) {
-			arrs = append(arrs, fmt.Sprintf("((as const %s) %s)", arrSort(bvSort(64), s), c.zeroOfSort(s)))
+			arrs = append(arrs, c.constArr(s))
 		}
 		ex.set(in, Val{K: KSlice, Typ: in.Type(), Arr: arrs, Off: bvLit(64, 0), Len: extend(n, 64), Elem: st.Elem()})
 	case *ssa.MakeClosure:
@@ -664,7 +664,7 @@ func (ex *Exec) slice(in *ssa.Slice, r Term) {
 			sorts := c.leafSorts(at.Elem())
 			arrs := make([]Term, len(sorts))
 			for k, s := range sorts {
-				arrs[k] = fmt.Sprintf("((as const %s) %s)", arrSort(bvSort(64), s), c.zeroOfSort(s))
+				arrs[k] = c.constArr(s)
 			}
 			for i := 0; i < n; i++ {
 				ev := c.load(ex.cur, c.fieldAddr(x.T, xt.Elem(), i), at.Elem())
